@@ -303,11 +303,20 @@ func C18(r *simkit.Run) {
 			// Hand-written SQL: a few operations.
 			var body strings.Builder
 			created := map[string]bool{}
+			// Some files set their own statement delimiter in a directive on the first line: positions
+			// are positions in the file, directive included.
+			delim := ";"
+			if t.Chance("delimiter-directive", 1, 5) {
+				delim = ";;"
+				body.WriteString("-- atlas:delimiter ;;\n\n")
+				r.Probe("file-with-delimiter-directive")
+			}
+			headerLen := body.Len()
 			emit := func(stmts ...string) (start, end int) {
 				start = body.Len()
 				for _, s := range stmts {
 					body.WriteString(s)
-					body.WriteString(";\n")
+					body.WriteString(delim + "\n")
 				}
 				return start, body.Len()
 			}
@@ -550,7 +559,7 @@ func C18(r *simkit.Run) {
 					r.Probe("temporary-table-created-and-dropped")
 				}
 			}
-			if body.Len() == 0 {
+			if body.Len() == headerLen {
 				continue
 			}
 			lf.name = fmt.Sprintf("%s_h%d.sql", version, f)
